@@ -15,14 +15,21 @@ _PENDING = ['C01', 'C02', 'C03', 'C04', 'C05', 'C06', 'C07', 'C08', 'C09', 'C10'
             'C18', 'C19', 'C20']
 CHECKS = [
     dict(id='C15', design_ref='DESIGN.md section 6 / C15',
-         technique='Lean 4 theorems (moment factorisation, exactness, mirrors) + exact Fraction correspondence',
+         technique='Lean 4 theorems (moment factorisation, exactness, mirrors) + src/quadrature.py regenerated from source each '
+                   'run (translate/quadgen.py) and proved equal to the hand model + exact Fraction correspondence of both',
          text='Proof, for every rule and every integrand, of the algebraic identities that make the derived schemes '
               'of src/quadrature.py exact: mirrors are involutions preserving weights, affine pull-back, tensor '
               'factorisation, Duffy pull-back and moment factorisation, exactness degrees n / n-1 / n-2 and measure '
-              'preservation under Exact1. The model is tied to the code by running the real classes on Fraction '
-              'arrays and comparing every point and weight with the compiled model.',
+              'preservation under Exact1. Every class, method and function of src/quadrature.py (except the quadpy wrapper) is '
+              'regenerated from the source text on every run (Gen/QuadGen.lean: constructors with their np.repeat/tile/kron/'
+              'hstack/vstack calls, mirrors with their memo, integrate with the a == b shortcut and the size assertions at the '
+              'binary64 thresholds, the *_quadrature_scheme key maps) and Props/QuadTie.lean proves each generated function '
+              'equal to the hand-written model for all inputs, so the theorems are restated for the generated functions. Both '
+              'are tied to the code by running the real classes on Fraction arrays and comparing every point and weight.',
          note='exact arithmetic; binary64 rounding of np.dot not modelled; exactness on general boxes via the '
-              'pull-back identities; harness and driver parser trusted'),
+              'pull-back identities; harness and driver parser trusted; the NumPy prelude of the generated file (element order '
+              'of repeat/tile/kron/hstack/vstack, scalar broadcasting) is trusted and tested against NumPy each run; arrays are '
+              'assumed not to be mutated in place by callers (the translator rejects in-place updates inside the module)'),
     dict(id='C02', design_ref='DESIGN.md section 6 / C02',
          technique='Lean 4 invariant proof by induction over all operation histories + lock-step state-dump correspondence',
          text='Proof that the executable A-layer model of src/mesh.py keeps the invariant Inv (half-open tiling of the '
